@@ -246,7 +246,10 @@ def ctype(node_or_type):
     alias = {"Elf_Half": "uint16_t", "Elf_Word": "uint32_t", "Elf_Sword": "int32_t",
              "Elf_Xword": "uint64_t", "Elf_Sxword": "int64_t", "Elf32_Addr": "uint32_t",
              "Elf32_Off": "uint32_t", "Elf64_Addr": "uint64_t", "Elf64_Off": "uint64_t",
-             "std::streamoff": "long", "std::streamsize": "long"}
+             "std::streamoff": "long", "std::streamsize": "long",
+             # a stream position is a signed 64-bit offset (std::fpos<mbstate_t> wraps a streamoff; the
+             # conversion state it also carries is never used by ELFIO)
+             "std::streampos": "long", "std::fpos<__mbstate_t>": "long"}
     if q2 in alias:
         return BUILTIN[alias[q2]]
     if q.endswith("*"):
@@ -376,6 +379,8 @@ class Tr:
                     return self.fv("_".join(names), "Bool")
             if ck == "PointerToBoolean":
                 return self.ptr_nonnull(sub)
+            if ck == "UserDefinedConversion" and self.fpos_conv(sub) is not None:
+                return self.cast(self.expr(self.fpos_conv(sub)), ctype(self.fpos_conv(sub)), ctype(n))
             raise Broken(f"cast kind {ck}")
         if k == "UnaryOperator":
             op = n["opcode"]; sub = inner[0]
@@ -463,6 +468,24 @@ class Tr:
             if ct[0] == "ptr":
                 raise Broken(f"pointer member {nm} used as a value")
             return self.fv((pre + "_" if pre else "") + nm, lean_ty(ct))
+        if k == "CXXConstructExpr" and len(inner) == 1 and self.is_fpos(n):
+            # std::streampos(off): the position is the offset
+            return self.cast(self.expr(inner[0]), ctype(inner[0]), ctype(n))
+        if k == "CXXMemberCallExpr" and self.fpos_conv(n) is not None:
+            return self.cast(self.expr(self.fpos_conv(n)), ctype(self.fpos_conv(n)), ctype(n))
+        if k == "CXXOperatorCallExpr" and len(inner) == 3 and self.smart_null_test(inner) is not None:
+            # `nullptr == up` / `up != nullptr` on a std::unique_ptr / std::shared_ptr: the same Bool
+            # parameter (per-site `null_style`) as for a raw pointer
+            op, other = self.smart_null_test(inner)
+            style = getattr(self, "null_style", "nonnull")
+            if style == "is_null":
+                v = self.fv(self.ptr_name(other) + "_is_null", "Bool")
+                return v if op == "==" else f"(!{v})"
+            if style in ("null", "null9"):
+                v = self.fv(lname(self.ptr_name(other)) + "_null", "Bool")
+                return v if op == "==" else f"(!{v})"
+            v = self.fv(self.ptr_name(other) + "_nonnull", "Bool")
+            return v if op == "!=" else f"(!{v})"
         if k == "CXXMemberCallExpr":
             callee = inner[0]; args = inner[1:]
             if callee["kind"] == "MemberExpr" and not args:
@@ -574,11 +597,55 @@ class Tr:
             q = re.sub(r"\b(const|struct)\b", "", q or "").strip().replace("ELFIO::", "")
             if q in self.sizes:
                 return f"(BitVec.ofNat {ct[1]} Gen.sizeof_{q})"
+            m = re.fullmatch(r"(?:std::)?array<(.+), (\d+)>", q)
+            if m:
+                # std::array<T, N> is an aggregate holding exactly T[N]
+                try:
+                    return f"{(ctype(m.group(1))[1] // 8) * int(m.group(2))}#{ct[1]}"
+                except Broken:
+                    raise Broken(f"sizeof({q})")
             try:
                 return f"{ctype(q)[1] // 8}#{ct[1]}"
             except Broken:
                 raise Broken(f"sizeof({q})")
         raise Broken(f"expression kind {k}")
+
+    def is_fpos(self, n):
+        t = n.get("type", {})
+        return "fpos<" in (t.get("desugaredQualType") or t.get("qualType") or "")
+
+    def fpos_conv(self, n):
+        """`pos.operator streamoff()` (the conversion std::fpos -> std::streamoff): the fpos operand, else None"""
+        if n.get("kind") != "CXXMemberCallExpr":
+            return None
+        ch = strip_comments(n)
+        if len(ch) != 1 or ch[0].get("kind") != "MemberExpr" or not ch[0].get("name", "").startswith("operator "):
+            return None
+        base = strip_comments(ch[0])
+        if len(base) != 1 or not self.is_fpos(base[0]):
+            return None
+        x = base[0]
+        while x.get("kind") in ("ImplicitCastExpr", "MaterializeTemporaryExpr") and \
+                x.get("castKind", "NoOp") == "NoOp" and x.get("inner"):
+            x = strip_comments(x)[-1]
+        return x
+
+    def smart_null_test(self, inner):
+        """operands of `operator==` / `operator!=` between a smart pointer and nullptr -> (op, pointer), else None"""
+        rd = inner[0]
+        while rd.get("kind") == "ImplicitCastExpr" and rd.get("inner"):
+            rd = rd["inner"][-1]
+        nm = rd.get("referencedDecl", {}).get("name", "")
+        if nm not in ("operator==", "operator!="):
+            return None
+        a, b = inner[1], inner[2]
+        if self.is_nullptr(a) == self.is_nullptr(b):
+            return None
+        other = b if self.is_nullptr(a) else a
+        q = other.get("type", {}).get("desugaredQualType") or other.get("type", {}).get("qualType", "")
+        if "unique_ptr<" not in q and "shared_ptr<" not in q:
+            return None
+        return nm[len("operator"):], other
 
     def is_null(self, x):
         while x.get("kind") in ("ImplicitCastExpr", "ParenExpr", "CStyleCastExpr") and x.get("inner"):
